@@ -41,6 +41,8 @@ func runC06(p *load.Program, r *oblig.Report) {
 	c11.ruleR10() // every fetch response reaches Batch.close, which drains it and releases the read lock
 	c11.ruleR7()  // and the Batch built after waitResponse succeeded owns the connection and the lock
 	c11.ruleR13() // the inline ApiVersions decoder accounts for the whole frame
+	c11.ruleR4()  // a failed drain closes the connection, whatever error the batch already carries
+	c06ReadAccounting(p, sub)
 	for _, o := range sub.Obs {
 		o2 := *o
 		o2.Rule = "C06.R7 nothing of an abandoned or refused exchange is left on a connection that stays in use (" + strings.SplitN(o.Rule, " ", 2)[0] + ")"
